@@ -1211,6 +1211,15 @@ func (e *Engine) convert(st *State, v Value, from, to types.Type) Value {
 			if flo != nil && tlo != nil && flo.Cmp(tlo) >= 0 && fhi.Cmp(thi) <= 0 {
 				return t // widening
 			}
+			// same width, different signedness: Go wraps; model it exactly (two's complement)
+			if flo != nil && tlo != nil && !t.IsConst() {
+				fw := new(big.Int).Sub(fhi, flo)
+				tw := new(big.Int).Sub(thi, tlo)
+				if fw.Cmp(tw) == 0 {
+					mod := new(big.Int).Add(tw, big.NewInt(1))
+					return Ite(Gt(t, IBig(thi)), Sub(t, IBig(mod)), Ite(Lt(t, IBig(tlo)), Add(t, IBig(mod)), t))
+				}
+			}
 			return e.rangeCheck(st, t, to, token.NoPos)
 		case fb.Info()&types.IsInteger != 0 && tb.Info()&types.IsFloat != 0:
 			if c, ok := v.(*Term).ConstInt(); ok {
